@@ -10,7 +10,7 @@ Case format (sx):  [path, tr, lock, labels, second]        (decoded by coq/Run/C
   lock   1: a sender task is suspended in the leaf's send_all, holding the send lock and the send guard
   labels outcome at each suspension point reached, in order: 0 completes, 1 raises OSError, 2 the closing task is
          cancelled, 3 the enclosing timed scope (TLS shutdown / handshake timeout) expires
-  second 1: close a second time afterwards (remaining labels)
+  second 1: close a second time afterwards (remaining labels); 2: and a third time
 Observables: [result, [leaf0 closed, leaf1 closed], outer is_closing, server-side client is_closing, labels consumed,
               second = [] | [result, labels consumed by the second close, leaf flags]]
   result 0 returned, 1 OSError, 2 CancelledError, 3 TimeoutError, 4 BusyResourceError, 9 other
@@ -408,6 +408,11 @@ class TlsPeer:
         except ssl.SSLError:
             pass
 
+    def send_app_data(self, chunks):
+        for c in chunks:
+            self.obj.write(c)
+        self.immediate.extend(self.outb.read())
+
     def close_first(self):
         """The peer closes before we do: its close_notify is already waiting."""
         try:
@@ -502,9 +507,12 @@ def run_case(inp, trace=None, cancel_at=None, info=None):
         base = tr[-1]
         peer = None
         if is_tls:
-            std, unwrap_pts, hs_pts = tcfg
-            # unwrap_pts: 0 peer closed first and sends do not suspend; 1 recv suspends; 2 send and recv suspend
-            peer = TlsPeer(answer_close=1, send_suspends=(unwrap_pts >= 2))
+            std, unwrap_pts, hs_pts = tcfg[:3]
+            tls_mode = tcfg[3] if len(tcfg) > 3 else 0
+            # mode 0 -- unwrap_pts: 0 peer closed first and sends do not suspend; 1 recv suspends; 2 send and recv suspend
+            # mode 1 -- unread application data in the SSL object: unwrap() writes the close_notify and fails with
+            #           SSLError; the flush of that alert is the (single) suspension point: the peer does not read
+            peer = TlsPeer(answer_close=1, send_suspends=(unwrap_pts >= 2 or tls_mode == 1))
 
         async def abuild(b):
             if b[0] == 0:
@@ -608,7 +616,12 @@ def run_case(inp, trace=None, cancel_at=None, info=None):
             t = loop.create_task(scene_wrap())
             sp.quiesce(until=t.done)
             transport = t.result()
-            if tcfg[1] == 0:
+            if tls_mode == 1:
+                peer.send_app_data([b"A" * 100, b"B" * 100])
+                t = loop.create_task(transport.recv(1))
+                sp.quiesce(until=t.done)
+                assert t.result() == b"A"           # both records are in the SSL object, one byte consumed
+            elif tcfg[1] == 0:
                 peer.close_first()
 
         # --- the object whose close is under test
@@ -732,6 +745,11 @@ def run_case(inp, trace=None, cancel_at=None, info=None):
             snd = [_code(exc2), world.used - before,
                    [int(leafs[0].closed) if 0 in leafs else 0, int(leafs[1].closed) if 1 in leafs else 0],
                    [fdflag(0), fdflag(1)]]
+            if second == 2:
+                before = world.used
+                task3 = loop.create_task(closer())
+                exc3 = drive(task3, is_main=False)
+                snd += [_code(exc3), world.used - before]
         if sender_task is not None and not sender_task.done():
             if not world.sender_fut.done():
                 world.sender_fut.set_result(None)
@@ -772,6 +790,8 @@ def oracle(inp):
     want = leaves_of(tr[-1])
     if path == 2 and res == 0:
         return None      # the handshake succeeded: nothing to close
+    if path == 3 and lock:
+        return None      # closing the low-level endpoint while another task sends is refused by contract (BusyResourceError)
     what = {0: "transport.aclose", 1: "aclose_forcefully", 2: "tls wrap failure", 3: "endpoint.aclose",
             4: "client aclose", 5: "server-side client aclose", 6: "client task teardown",
             7: "client task teardown"}[path]
@@ -784,6 +804,10 @@ def oracle(inp):
             return f"{what}, labels {labels[:used]}: descriptor of leaf {i} still open after the close (result {res})"
     if snd and not lock and snd[1] != 0:
         return f"second close: {snd[1]} suspension points on an already closed transport"
+    if snd and not lock and snd[0] != 0:
+        return f"second close raised (code {snd[0]}) although nobody interrupted it"
+    if len(snd) > 4 and not lock and (snd[5] != 0 or snd[4] != 0):
+        return f"third close: result code {snd[4]}, {snd[5]} suspension points"
     return None
 
 
@@ -794,7 +818,7 @@ def signature(inp, failure):
             return "client aclose, cancel at send-lock acquisition"
         if path == 5:
             return "server-side client aclose, cancel at send-lock acquisition while a send holds the guard"
-    if _has_backlog_adapter(tr) and not lock and ("descriptor of leaf" in failure or failure.startswith("second close")):
+    if _has_backlog_adapter(tr) and not lock and ("descriptor of leaf" in failure or failure.startswith("second close:")):
         # only the adapter WITH unflushed data; the same symptom on any other leaf is a different failure
         bad = failure.split("leaf ")[1].split(" ")[0] if "descriptor of leaf" in failure else None
         if bad is None or _leaf_is_backlog(tr, int(bad)):
@@ -835,6 +859,9 @@ def shapes(thorough):
     for b in ([0, 0, 0], [0, 0, 1], [0, 0, 2], [1, [0, 0, 1], [0, 1, 1]]):
         for std, up in ((1, 2), (1, 1), (1, 0), (0, 0)):
             out.append([1, [std, up, 0], b])
+    # unread application data when the close starts: unwrap() fails after producing the alert, whose flush blocks
+    for b in ([0, 0, 0], [0, 0, 1], [1, [0, 0, 1], [0, 1, 1]]):
+        out.append([1, [1, 1, 0, 1], b])
     return out
 
 
@@ -870,9 +897,10 @@ def cases(tier, rng, escalate):
                 k = len(trace)
                 extra = 1 if backlog else 2      # handlers may reach further points once an earlier one failed
                 for labels in label_seqs(k + (extra if k else 0), thorough, rng):
-                    second = 0 if (lock or path in (6, 7)) else 1
+                    second = 0 if (lock or path in (6, 7)) else (2 if (len(labels) + path) % 2 else 1)
                     yield dict(input=[path, tr, lock, labels, second],
                                tags=[f"path{path}", "tls" if is_tls else "plain", "stapled" if tr[-1][0] == 1 else "leaf",
+                                     ] + (["tls-unread-data"] if is_tls and len(tr[1]) > 3 and tr[1][3] == 1 else []) + [
                                      "asyncio-adapter" if real_leaf else "memory-leaf",
                                      ] + (["adapter-backlog"] if backlog else []) + [
                                      "lock" if lock else "nolock", f"k{k}"] +
